@@ -142,6 +142,13 @@ def run_case(case, ctx):
             try:
                 got = H.predict(m, fam.xs, cfg)
             except Exception as e:
+                try:
+                    H.predict(fresh, fam.xs, cfg)
+                except Exception:
+                    # the fresh model cannot predict from this state either (e.g. an optimiser step drove the parameters
+                    # to a numerically singular state): not a property of the history
+                    ctx.reject(f"state not predictable even by a fresh model: {case['family']}:{op}: {type(e).__name__}")
+                    return
                 ctx.fail(mon, f"prediction after step {i} ({op}) raised {type(e).__name__}: {str(e)[:140]}", "raise", exc=type(e).__name__, step=i, op=op, seq=case["seq"][: i + 1])
                 return
             ref = H.predict(fresh, fam.xs, cfg)
